@@ -59,6 +59,17 @@ def check_C01(c):
         s = G.join_tokens(rd.program(ag.program()), rng, tight=True)
         strings.append(s)
         strings.append(G.mutate(rng, s))
+    # number literals at and beyond every limit of the decimal type: 26–40 fractional digits (leading zeros, small and
+    # large mantissas), 26–40 integer digits, both at once; alone and inside expressions
+    extremes = []
+    for fd in list(range(26, 34)) + [40, 60]:
+        for body in ["0" * (fd - 1) + "1", "0" * (fd - 2) + "25", "9" * fd, "1" + "0" * (fd - 1), "0" * fd]:
+            for ip in ["0", "1", "123456789", "9" * 20, "7" * 29]:
+                extremes.append(ip + "." + body[:fd])
+    for idg in list(range(26, 34)) + [40, 60]:
+        extremes += ["9" * idg, "1" + "0" * (idg - 1), "7" * idg + ".5", "0" * idg + "1"]
+    extremes = extremes + ["a = [1, 2 * %s]; a" % x for x in extremes[::7]] + ["f(%s) + %s" % (x, x) for x in extremes[::11]]
+    strings = extremes + strings
     reqs = []
     for s in strings:
         reqs.append(expr_req(s))
